@@ -351,6 +351,72 @@ func init() {
 	pk.Register(genDone)
 	pk.Register(genEed)
 	pk.Register(genEnv)
+	pk.Register(genAlloc)
+}
+
+// declared lengths far beyond the bytes present, and the unmodelled BLOB reader (fn 5)
+func genAlloc(g *pk.Gen) {
+	huge := []int64{1 << 20, 1 << 26, 0x7fffffff, 0xffffffff}
+	// 4-byte length types and text pointer data in rows
+	for _, info := range dts {
+		if info.lenBytes != 4 {
+			continue
+		}
+		f := randFmt(g, info, false, true, false)
+		last := libFormat([]Fmt{f}, false, true)
+		if last == nil {
+			continue
+		}
+		for _, h := range huge {
+			var body []byte
+			if info.kind == 5 {
+				body = pk.Cat(pk.LP8(g.Rng.Bytes(16)), g.Rng.Bytes(8), pk.LE32(h), g.Rng.Bytes(5))
+			} else {
+				body = pk.Cat(pk.LE32(h), g.Rng.Bytes(5))
+			}
+			g.FuzzCase(int(tds.TDS_ROW), body, nil, last, fmt.Sprintf("alloc-declared;dt=%x", int(info.dt)))
+		}
+	}
+	// BLOB column: format = length byte (as the library reads it), blob type; rows with chunked data
+	for _, bt := range []int{1, 3, 4, 5, 6} {
+		fbody := pk.Cat(pk.LP8([]byte("b")), []byte{0}, pk.LE32(0), []byte{byte(asetypes.BLOB)}, []byte{0, byte(bt)})
+		if bt == 1 {
+			fbody = append(fbody, pk.LP16([]byte("cls"))...)
+		}
+		fbody = append(fbody, 0) // locale
+		for _, adj := range []int{0, -2} {
+			total := 2 + len(fbody) + adj // the library miscounts the BLOB format by 2 (see DESIGN: BLOB is not modelled)
+			rf := pk.Cat(pk.LE16(total), pk.LE16(1), fbody)
+			p := pk.Parse(int(tds.TDS_ROWFMT), rf, nil)
+			g.FuzzCase(int(tds.TDS_ROWFMT), rf, nil, nil, "blob-format")
+			if p.Class != 0 {
+				continue
+			}
+			for i := 0; i < 40; i++ {
+				var row []byte
+				row = append(row, byte(g.Rng.Intn(3))) // serialisation type
+				if bt == 1 {
+					row = append(row, pk.LP16(g.Rng.Bytes(g.Rng.Intn(4)))...)
+				}
+				if bt == 6 {
+					row = append(row, pk.LP16(g.Rng.Bytes(g.Rng.Intn(4)))...)
+				}
+				for c := 0; c < g.Rng.Intn(3); c++ {
+					n := g.Rng.Intn(6)
+					row = append(row, pk.LE32(int64(n))...)
+					row = append(row, g.Rng.Bytes(n)...)
+				}
+				switch g.Rng.Intn(3) {
+				case 0:
+					row = append(row, pk.LE32(0x80000000)...)
+				case 1:
+					row = append(row, pk.LE32(huge[g.Rng.Intn(2)])...)
+					row = append(row, g.Rng.Bytes(3)...)
+				}
+				g.FuzzCase(int(tds.TDS_ROW), row, nil, p.Pkg, "blob-row")
+			}
+		}
+	}
 }
 
 func genFormats(g *pk.Gen) {
